@@ -4,3 +4,4 @@
 pub mod sup;
 pub mod util;
 pub mod fontgen;
+pub mod proj;
